@@ -322,7 +322,8 @@ def run(ctx, res):
             if cd:
                 stats[f"{b}:L2 cache mismatch"] += 1
             if v in (1, 2) or cd:
-                f = {"kind": "names" if v == 1 else "rows" if v == 2 else "l2_cache", "exc": None, "msg": ""}
+                f = {"kind": "names" if v == 1 else "rows" if v == 2 else "l2_cache", "exc": None, "msg": "",
+                     "code": cd, "markers": getattr(pseudo_obs[j][b], "n_markers", 0)}
                 fid = findings.match(linear_case(cases[i], key), b, f, listed)
                 if fid is not None:
                     hit[fid] += 1
